@@ -715,13 +715,10 @@ pub fn execute(plan: &Plan) -> RunOutput {
         .build()
         .expect("runtime");
     let plan2 = plan.clone();
-    let tracing_on = plan.tracing;
     let res = std::panic::catch_unwind(std::panic::AssertUnwindSafe(|| {
-        crate::tracesub::with_tracing(tracing_on, || {
-            rt.block_on(async move {
-                let world: Shared = Arc::new(Mutex::new(World::new(&plan2)));
-                direct(plan2, world).await
-            })
+        rt.block_on(async move {
+            let world: Shared = Arc::new(Mutex::new(World::new(&plan2)));
+            direct(plan2, world).await
         })
     }));
     let _ = std::panic::catch_unwind(std::panic::AssertUnwindSafe(move || drop(rt)));
